@@ -117,11 +117,15 @@ class PassWorld(World):
                     self.struct_fields[it["name"]] = [(x["name"], x["ty"].replace(" ", "")) for x in it["fields"]]
         # struct-like variants: name -> enum (for patterns written with glob imports)
         self.variant_owner = {}
+        self.struct_variant_owner = {}
         for f in files:
             for _p, it in all_items(facts.ast().get(f) or []):
                 if it["k"] == "Enum":
                     for v in it["variants"]:
                         self.variant_owner.setdefault(v["name"], set()).add(it["name"])
+                        # (a unit / tuple variant of the same name elsewhere does not make a struct literal ambiguous)
+                        if v.get("fields") and not all((f_.get("name") or "").isdigit() for f_ in v["fields"]):
+                            self.struct_variant_owner.setdefault(v["name"], set()).add(it["name"])
 
     # --- patterns
     def bind(self, p, v, env, uses):
@@ -275,7 +279,7 @@ class PassWorld(World):
         if k == "Struct":
             name = last(e["path"])
             segs_s = e["path"].split("::")
-            owner = segs_s[-2] if len(segs_s) >= 2 and segs_s[-2] in self.enums and name in self.enums[segs_s[-2]] else (list(self.variant_owner[name])[0] if name in self.variant_owner and len(self.variant_owner[name]) == 1 else None)
+            owner = segs_s[-2] if len(segs_s) >= 2 and segs_s[-2] in self.enums and name in self.enums[segs_s[-2]] else (list(self.variant_owner[name])[0] if name in self.variant_owner and len(self.variant_owner[name]) == 1 else (list(self.struct_variant_owner[name])[0] if len(self.struct_variant_owner.get(name, ())) == 1 else None))
             if name not in self.structs and owner is not None:
                 fields = {}
                 for f in e["fields"]:
@@ -866,6 +870,41 @@ class PassWorld(World):
                     raise Panic("assertion failed: " + render(e["args"][0])[:60])
                 return ("T", ())
             if name == "format":
+                # `format!("{a}.{b}")` / `format!("{}.{}", a, b)` over strings and numbers is the string itself
+                args_ = e.get("args") or []
+                if e.get("parsed") and args_ and args_[0].get("k") == "Lit" and args_[0].get("lit") == "str":
+                    fmt = str(args_[0].get("value"))
+                    rest = list(args_[1:])
+                    out_, ok_, i_ = "", True, 0
+                    import re as _re
+
+                    for part in _re.split(r"(\{\{|\}\}|\{[^{}]*\})", fmt):
+                        if part in ("{{", "}}"):
+                            out_ += part[0]
+                        elif part.startswith("{") and part.endswith("}"):
+                            spec = part[1:-1]
+                            if ":" in spec:
+                                ok_ = False
+                                break
+                            if spec == "":
+                                if i_ >= len(rest):
+                                    ok_ = False
+                                    break
+                                v_ = self.eval(rest[i_], env, uses)
+                                i_ += 1
+                            elif spec in env:
+                                v_ = env[spec]
+                            else:
+                                ok_ = False
+                                break
+                            if isinstance(v_, bool) or not isinstance(v_, (str, int)):
+                                ok_ = False
+                                break
+                            out_ += str(v_)
+                        else:
+                            out_ += part
+                    if ok_:
+                        return out_
                 return ("K", "format", (e.get("raw", ""),))
         if k == "Assign":
             l = e["l"]
